@@ -1192,7 +1192,8 @@ class SQLObject(with_metaclass(declarative.DeclarativeMeta, object)):
                 except AttributeError as e:
                     raise AttributeError('%s (with attribute %r)' % (e, name))
 
-            self.sqlmeta.dirty = True
+            if kw:
+                self.sqlmeta.dirty = True
             return
 
         self._SO_writeLock.acquire()
